@@ -507,6 +507,42 @@ def g_collections(ctx, rng, i):
             _same(ctx, c, e, "join(s,p,q) != join(join(s,p),q)", [s, p, q])
 
 
+def g_large(ctx, rng, i):
+    """Large collections (64 ... 1000 positions, one and two axes; a single object against them): whatever path the size of the arrays
+    selects, every position holds the span / intersection of its operands."""
+    g = G()
+    n = 3 + i % 2
+    shape = [(64,), (70,), (200,), (8, 10), (1000,), (3, 30)][(i // 2) % 6]
+    k = int(np.prod(shape))
+    for _ in range(20):
+        A = gen.coords(rng, (k, n), 6, "int")
+        B = gen.coords(rng, (k, n), 6, "int")
+        if all(_indep(a, b) for a, b in zip(A, B)):
+            break
+    else:
+        return
+    A, B = A.reshape(shape + (n,)), B.reshape(shape + (n,))
+    kind = (i // 12) % 3
+    if kind == 0:
+        _lib(ctx, g.join, g.PointCollection(A), g.PointCollection(B), what="join(large point collections)")
+        _lib(ctx, g.PointCollection(B).join, g.PointCollection(A), what="join(large point collections)")
+    elif kind == 1:
+        cls = g.LineCollection if n == 3 else g.PlaneCollection
+        _lib(ctx, g.meet, cls(A), cls(B), what="meet(large collections)")
+        _lib(ctx, cls(B).meet, cls(A), what="meet(large collections)")
+    else:
+        for _ in range(20):
+            s = _rand_vec(rng, n, "int")
+            if all(_indep(s, a) for a in A.reshape(-1, n)):
+                break
+        else:
+            return
+        _lib(ctx, g.join, g.Point(s), g.PointCollection(A), what="join(point, large collection)")
+        _lib(ctx, g.join, g.PointCollection(A), g.Point(s), what="join(large collection, point)")
+        cls1, cls = (g.Line, g.LineCollection) if n == 3 else (g.Plane, g.PlaneCollection)
+        _lib(ctx, g.meet, cls1(s), cls(A), what="meet(single, large collection)")
+
+
 def g_bigint(ctx, rng, i):
     """Large integer coordinates (products beyond 2**53 but inside int64) in nearly dependent position: the exact int64 contraction of the
     library has no rounding, a floating-point detour loses the result."""
@@ -533,6 +569,7 @@ def g_bigint(ctx, rng, i):
 
 
 GROUPS = [
+    {"name": "large", "fn": g_large, "quick": 72, "thorough": 720},
     {"name": "bigint", "fn": g_bigint, "quick": 400, "thorough": 4000},
     {"name": "lattice2d", "fn": g_lattice2d, "quick": 124 * 124, "thorough": 124 * 124},
     {"name": "lattice3d", "fn": g_lattice3d, "quick": 80 * 80, "thorough": 80 * 80},
